@@ -121,7 +121,12 @@ pub fn generate(rng: &mut Rng, tier: Tier) -> Plan {
     };
     let setup = Setup { quotes, base };
 
-    let nsteps = rng.usize_in(2, if tier == Tier::Quick { 14 } else { 22 });
+    let nsteps = if rng.chance(0.01) && n <= 4 {
+        // a long life on a small market
+        rng.usize_in(60, 200)
+    } else {
+        rng.usize_in(2, if tier == Tier::Quick { 14 } else { 22 })
+    };
     let mut steps = Vec::new();
     let mut forked = false;
     // the generator tracks the current quote list only to produce meaningful items
@@ -246,6 +251,14 @@ pub fn generate(rng: &mut Rng, tier: Tier) -> Plan {
     // NOTE: with a replica the generator's `cur` follows the primary only approximately;
     // expectations are never taken from the generator, always from the model at execution.
     for _ in 0..nsteps {
+        if rng.chance(0.02) {
+            // an update that names nothing: legal, changes nothing
+            steps.push(Step::Update {
+                target: target(rng, forked),
+                items: vec![],
+            });
+            continue;
+        }
         if rng.chance(0.06) {
             // roll the whole market to one new settlement date (or date an undated market,
             // or undate a dated one): every pair re-quoted, consistent, hence acceptable
@@ -1042,9 +1055,6 @@ pub fn execute(plan: &Plan, obs: &mut Obs) -> Result<(), Fail> {
                 } else {
                     None
                 };
-                if items.is_empty() {
-                    return Err(HarnessError("empty update in plan".into()).into());
-                }
                 let rs_items: Vec<FXRate> =
                     items.iter().map(to_fxrate).collect::<Result<_, _>>()?;
                 let expect = mk[ti].model.expect_update(items);
@@ -1358,8 +1368,8 @@ impl Scenario for C10 {
 
     fn units(tier: Tier) -> u64 {
         match tier {
-            Tier::Quick => 12_000,
-            Tier::Thorough => 240_000,
+            Tier::Quick => 30_000,
+            Tier::Thorough => 300_000,
         }
     }
     fn unit(seed: u64, tier: Tier, unit: u64, sink: &mut dyn FnMut(Plan) -> bool) {
